@@ -264,16 +264,23 @@ def run(pid, tier, seed):
             for (a, b) in ws[: (10 if tier == "quick" else 40)]:
                 if a is None and b is None:
                     continue
-                cont = rng.choice(["plain", "gz", "xz", "tar"])
+                cont = rng.choice(["plain", "plain", "gz", "xz", "tar", "bz2", "lz4"])
                 name = "f%d.log" % fi
                 if cont == "plain":
                     fl, arg = {name: blob}, name
                 elif cont == "gz":
-                    fl, arg = {name + ".gz": gen.gz_bytes(blob)}, name + ".gz"
+                    fl, arg = {name + ".gz": gen.gz_bytes(blob, mtime=rng.choice([0, 315532800, gen.BASE]))}, name + ".gz"
                 elif cont == "xz":
                     fl, arg = {name + ".xz": gen.xz_bytes(blob)}, name + ".xz"
+                elif cont == "bz2":
+                    fl, arg = {name + ".bz2": gen.bz2_bytes(blob, 1)}, name + ".bz2"
+                elif cont == "lz4":
+                    fl, arg = {name + ".lz4": gen.lz4_bytes(blob)}, name + ".lz4"
                 else:
-                    fl, arg = {"f%d.tar" % fi: gen.tar_bytes([(name, blob)])}, "f%d.tar" % fi
+                    fl, arg = {"f%d.tar" % fi: gen.tar_bytes([(name, blob)], mtime=rng.choice([0, 315532800, gen.BASE]))}, "f%d.tar" % fi
+                # the file's own modification time says nothing about what a window selects: now (as written), 1980, the
+                # first message's instant, one second before the window opens
+                mt = rng.choice([None, 315532800, msgs[0][0], (a[0] - 1) if a is not None else 315532800])
                 argv = ["--color", "never", "--blocksz", str(rng.choice([64, 100, 4096, 65536]))]
                 # the same instants zone-less (under -t +00:00) or with a numeric offset written on the values
                 woff = rng.choice([None, None, 60, -480, 330, 825])
@@ -282,7 +289,8 @@ def run(pid, tier, seed):
                 if b is not None:
                     argv += ["-b", gen.fmt_ts(b[0], b[1], woff, 6)]
                 exp = b"".join(m[2] for m in select(msgs, a, b))
-                cases.append((Case(fl, argv + [arg], exp, note={"after": a, "before": b, "container": cont}), msgs))
+                cases.append((Case(fl, argv + [arg], exp, note={"after": a, "before": b, "container": cont, "mtime": mt},
+                                   mtimes=({arg: mt} if mt is not None else None)), msgs))
 
         # ---- several sources under one window: each is cut by the window, then merged (plain: binary search; gz: linear)
         for mi in range(4 if tier == "quick" else 30):
